@@ -24,6 +24,7 @@ import (
 	"strings"
 	"sync"
 	"time"
+	"unicode/utf8"
 
 	"github.com/open-policy-agent/opa/v1/ast"
 	"github.com/open-policy-agent/opa/v1/format"
@@ -61,14 +62,20 @@ type UnitCase struct {
 	Pred    string `json:"pred"`   // "" when the unit-level predicate holds
 }
 
+// the instances regal fix registers, once per run (fixes.NewDefaultFixes): every unit call of the run goes
+// through the same instance, as every file of a fixer run does; state kept between calls would show up as
+// a disagreement with the (stateless) model of the three text fixes
+var sharedFixes = func() map[string]fixes.Fix {
+	m := map[string]fixes.Fix{}
+	for _, f := range fixes.NewDefaultFixes() {
+		m[f.Name()] = f
+	}
+	return m
+}()
+
 func fixByName(n string) fixes.Fix {
-	switch n {
-	case "uao":
-		return &fixes.UseAssignmentOperator{}
-	case "nwc":
-		return &fixes.NoWhitespaceComment{}
-	case "nrr":
-		return &fixes.NonRawRegexPattern{}
+	if f, ok := sharedFixes[ruleNames[n]]; ok {
+		return f
 	}
 	panic(n)
 }
@@ -129,11 +136,39 @@ func unitPredicate(fix, in, out string, locs []Loc) string {
 		if !explained(il[i], ol[i], allow) {
 			return fmt.Sprintf("row-%d-not-explained", i+1)
 		}
+		if len(locs) == 1 && !spliceAtColumn(fix, il[i], ol[i], locs[0].Col) {
+			return fmt.Sprintf("row-%d-splice-not-at-the-character-column", i+1)
+		}
 	}
 	if !changed {
 		return "reported-change-without-change"
 	}
 	return ""
+}
+
+// spliceAtColumn: columns of locations count characters (as the parser does), so the documented splice of the
+// fix starts at the byte where the col-th character of the old line starts
+func spliceAtColumn(fix, old, new string, col int) bool {
+	if col < 1 {
+		return false
+	}
+	p := 0
+	for n := 1; n < col; n++ {
+		if p >= len(old) {
+			return false
+		}
+		_, sz := utf8.DecodeRuneInString(old[p:]) // an invalid byte is one character of one byte
+		p += sz
+	}
+	switch fix {
+	case "uao":
+		return p < len(old) && old[p] == '=' && new == old[:p]+":"+old[p:]
+	case "nwc":
+		return p < len(old) && old[p] == '#' && new == old[:p+1]+" "+old[p+1:]
+	case "nrr":
+		return p < len(old) && p < len(new) && old[p] == '"' && new[p] == '`' && old[:p] == new[:p]
+	}
+	return false
 }
 
 // lines used by the unit generator: every interesting neighbourhood of '=', '#', quotes, escapes,
@@ -145,6 +180,10 @@ var unitLines = []string{
 	`regex.match("[0-9]+", x)`, `regex.match("\\d", x)`, `regex.match("a\\\\b", x)`, "regex.match(\"\u00e9\\\\d\", x)",
 	"regex.match(\"\\\\d`\", x)", `regex.match("\\d\n\"", x)`, `"\\"`, `""`, `"`, `"\\\\\\"`, `"a" "b"`, "`raw`", `"\\d" == "\\e"`, "\"\\\\d\"\r",
 	"\xff=\xfe#\"", "a\xc3=", "\"\xe9\\\\\"",
+	// characters outside of the BMP (one character, four bytes, two UTF-16 code units) before the column
+	"f(\"\U0001F600\U0001F600\U0001F600=\")=1", "y := \"\U0001D11E\u00e9#\"#c", "y := \"\U0001F600\U0001F600#\"#c",
+	"regex.replace(\"\U00010348\U00010348\",\"\\\\d\", x)", "regex.replace(\"\U0001F600\u65e5\", \"\\\\d\", x)",
+	"#\U0001F600x", "\U0001F600=\U0001F600 = 2", "g(\"\U0001F511=\u65e5\U0002070E=x\") = 1 #\U0001F600",
 }
 
 func unitCases(rng *hutil.Rng, tier string, emit func(UnitCase)) {
@@ -268,6 +307,7 @@ type Viol struct {
 	Col   int    `json:"col"`
 	ERow  int    `json:"erow"`
 	ECol  int    `json:"ecol"`
+	File  string `json:"file,omitempty"`
 }
 
 type Head struct {
@@ -297,6 +337,7 @@ type E2ECase struct {
 	Final    string   `json:"final"`  // base64
 	Pred     string   `json:"pred"`   // "" when the predicate holds, else the reason
 	FmtEq    string   `json:"fmt_eq"` // for fmt-only runs: "", "eq", "neq", "fmterr"
+	Ms       int64    `json:"ms"`     // informational only
 }
 
 // counting provider: one ToInput call per iteration of applyLinterFixes; refuses to go on after cap
@@ -350,9 +391,9 @@ func parseMod(file, content string, v0 bool) (*ast.Module, error) {
 	return ast.ParseModuleWithOpts(file, content, parserOpts(v0))
 }
 
-func lintOnce(ctx context.Context, files map[string]string, rulesOn []string) ([]Viol, error) {
+func lintOnce(ctx context.Context, files map[string]string, rulesOn []string, vmap map[string]ast.RegoVersion) ([]Viol, error) {
 	fp := fileprovider.NewInMemoryFileProvider(copyMap(files))
-	in, err := fp.ToInput(vmapAbs())
+	in, err := fp.ToInput(vmap)
 	if err != nil {
 		return nil, err
 	}
@@ -367,6 +408,7 @@ func lintOnce(ctx context.Context, files map[string]string, rulesOn []string) ([
 		if v.Location.End != nil {
 			x.ERow, x.ECol = v.Location.End.Row, v.Location.End.Column
 		}
+		x.File = v.Location.File
 		vs = append(vs, x)
 	}
 	return vs, nil
@@ -380,7 +422,13 @@ func copyMap(m map[string]string) map[string]string {
 	return o
 }
 
-func runFix(files map[string]string, rulesOn []string, capIters int, deadline time.Duration) (final map[string]string, snap2 map[string]string, iters int, errClass, errMsg string) {
+func runFix(files map[string]string, rulesOn []string, vmap map[string]ast.RegoVersion, capIters int, deadline time.Duration) (final map[string]string, snap2 map[string]string, iters int, errClass, errMsg string) {
+	final, snap2, iters, errClass, errMsg, _ = runFixReport(files, rulesOn, vmap, capIters, deadline)
+	return
+}
+
+// runFixReport: as runFix, also returning the titles of the fixes Fixer.Fix says it applied, per file
+func runFixReport(files map[string]string, rulesOn []string, vmap map[string]ast.RegoVersion, capIters int, deadline time.Duration) (final map[string]string, snap2 map[string]string, iters int, errClass, errMsg string, applied map[string][]string) {
 	mem := fileprovider.NewInMemoryFileProvider(copyMap(files))
 	cfp := &countingFP{InMemoryFileProvider: mem, cap: capIters, snapshot: map[int]map[string]string{}}
 	cfp.files = func() map[string]string {
@@ -398,24 +446,37 @@ func runFix(files map[string]string, rulesOn []string, capIters int, deadline ti
 	f := fixer.NewFixer()
 	f.RegisterFixes(fixes.NewDefaultFixes()...)
 	f.RegisterRoots(wsRoot)
-	f.SetRegoVersionsMap(vmapAbs())
-	type res struct{ err error }
+	if vmap != nil {
+		f.SetRegoVersionsMap(vmap)
+	}
+	type res struct {
+		err error
+		rep *fixer.Report
+	}
 	done := make(chan res, 1)
 	go func() {
 		defer func() {
 			if r := recover(); r != nil {
-				done <- res{fmt.Errorf("panic: %v", r)}
+				done <- res{fmt.Errorf("panic: %v", r), nil}
 			}
 		}()
-		_, err := f.Fix(ctx, &l, cfp)
-		done <- res{err}
+		rep, err := f.Fix(ctx, &l, cfp)
+		done <- res{err, rep}
 	}()
 	var err error
 	select {
 	case r := <-done:
 		err = r.err
+		applied = map[string][]string{}
+		if r.rep != nil {
+			for _, file := range r.rep.FixedFiles() {
+				for _, fr := range r.rep.FixesForFile(file) {
+					applied[file] = append(applied[file], fr.Title)
+				}
+			}
+		}
 	case <-time.After(deadline + 30*time.Second):
-		return cfp.files(), cfp.snapshot[2], cfp.iters, "deadline", "hard deadline"
+		return cfp.files(), cfp.snapshot[2], cfp.iters, "deadline", "hard deadline", nil
 	}
 	final = cfp.files()
 	snap2 = cfp.snapshot[2]
@@ -631,8 +692,10 @@ func predicate(file, orig, final string, v0 bool, on map[string]bool) string {
 	return ""
 }
 
-func runE2E(id int, src, content string, v0 bool, rs []string) E2ECase {
-	c := E2ECase{Kind: "e2e", ID: id, Src: src, Content: b64(content), V0: v0, Rules: rs}
+func runE2E(id int, src, content string, v0 bool, rs []string) (c E2ECase) {
+	t0 := time.Now()
+	defer func() { c.Ms = time.Since(t0).Milliseconds() }()
+	c = E2ECase{Kind: "e2e", ID: id, Src: src, Content: b64(content), V0: v0, Rules: rs}
 	file := fileFor(v0)
 	om, err := parseMod(file, content, v0)
 	if err != nil {
@@ -666,14 +729,14 @@ func runE2E(id int, src, content string, v0 bool, rs []string) E2ECase {
 	}
 	files := map[string]string{file: content}
 	ctx := context.Background()
-	vs, err := lintOnce(ctx, files, long)
+	vs, err := lintOnce(ctx, files, long, vmapAbs())
 	if err != nil {
 		c.ParseOK = false // not lintable as the fixer would see it
 		c.ErrMsg = "lint: " + err.Error()
 		return c
 	}
 	c.Viol = vs
-	final, snap2, iters, ec, em := runFix(files, long, 12, 120*time.Second)
+	final, snap2, iters, ec, em := runFix(files, long, vmapAbs(), 12, 120*time.Second)
 	c.Iters, c.Err, c.ErrMsg = iters, ec, em
 	c.Final = b64(final[file])
 	c.Iter1 = b64(snap2[file])
@@ -916,18 +979,17 @@ var ruleSubsets = [][]string{
 }
 
 type job struct {
-	id      int
-	src     string
-	content string
-	v0      bool
-	rules   []string
+	id  int
+	run func(id int) any
 }
 
 type corpusCase struct {
-	Content string   `json:"content"`
-	V0      bool     `json:"v0"`
-	Rules   []string `json:"rules"`
-	Name    string   `json:"name"`
+	Content string    `json:"content"`
+	V0      bool      `json:"v0"`
+	Rules   []string  `json:"rules"`
+	Name    string    `json:"name"`
+	Files   []mfileIn `json:"files,omitempty"` // a file set (then Mode says how versions are determined)
+	Mode    string    `json:"mode,omitempty"`
 }
 
 func main() {
@@ -942,7 +1004,10 @@ func main() {
 
 	var jobs []job
 	add := func(src, content string, v0 bool, rs []string) {
-		jobs = append(jobs, job{len(jobs), src, content, v0, rs})
+		jobs = append(jobs, job{len(jobs), func(id int) any { return runE2E(id, src, content, v0, rs) }})
+	}
+	addMulti := func(src, mode string, rs []string, in []mfileIn) {
+		jobs = append(jobs, job{len(jobs), func(id int) any { return runMulti(id, src, mode, rs, in) }})
 	}
 	if len(os.Args) > 4 {
 		// replay of one stored case
@@ -967,6 +1032,28 @@ func main() {
 			out.Emit(runUnit(uc.Fix, string(c), uc.Locs, "replay"))
 			return
 		}
+		if k.Kind == "seq" {
+			var sc SeqCase
+			_ = json.Unmarshal(rc.Case, &sc)
+			var in []seqIn
+			for _, st := range sc.Steps {
+				c, _ := base64.StdEncoding.DecodeString(st.Content)
+				in = append(in, seqIn{st.File, string(c), st.Cfg})
+			}
+			out.Emit(runSeq(0, "replay", sc.Inst, sc.Init, in))
+			return
+		}
+		if k.Kind == "multi" {
+			var mc MultiCase
+			_ = json.Unmarshal(rc.Case, &mc)
+			var in []mfileIn
+			for _, f := range mc.Files {
+				c, _ := base64.StdEncoding.DecodeString(f.Content)
+				in = append(in, mfileIn{f.Path, string(c)})
+			}
+			out.Emit(runMulti(0, "replay", mc.Mode, mc.Rules, in))
+			return
+		}
 		var ec E2ECase
 		_ = json.Unmarshal(rc.Case, &ec)
 		c, _ := base64.StdEncoding.DecodeString(ec.Content)
@@ -975,6 +1062,7 @@ func main() {
 	}
 
 	unitCases(rng, tier, func(u UnitCase) { out.Emit(u) })
+	seqCases(rng, tier, func(c SeqCase) { out.Emit(c) })
 
 	if os.Args[3] != "-" {
 		fs, _ := filepath.Glob(filepath.Join(os.Args[3], "*.json"))
@@ -990,6 +1078,10 @@ func main() {
 				os.Exit(2)
 			}
 			for _, c := range cs {
+				if len(c.Files) > 0 {
+					addMulti("corpus:"+c.Name, c.Mode, c.Rules, c.Files)
+					continue
+				}
 				add("corpus:"+c.Name, c.Content, c.V0, c.Rules)
 			}
 		}
@@ -1008,8 +1100,18 @@ func main() {
 		}
 		add("gen", m, v0, rs)
 	}
+	// multi-byte text (characters outside of the BMP included) before the fix column, decoys to its left
+	text3 := []string{"uao", "nwc", "nrr"}
+	for i, am := range astralModules(rng, tier) {
+		add("astral:"+am.kind, am.content, am.v0, []string{am.kind})
+		if tier != "quick" || i%3 == 0 {
+			add("astral:"+am.kind, am.content, am.v0, text3)
+		}
+	}
+	// several files in one run
+	multiCases(rng, tier, addMulti)
 
-	results := make([]E2ECase, len(jobs))
+	results := make([]any, len(jobs))
 	var wg sync.WaitGroup
 	ch := make(chan job)
 	nw := runtime.NumCPU()
@@ -1021,7 +1123,7 @@ func main() {
 		go func() {
 			defer wg.Done()
 			for j := range ch {
-				results[j.id] = runE2E(j.id, j.src, j.content, j.v0, j.rules)
+				results[j.id] = j.run(j.id)
 			}
 		}()
 	}
